@@ -221,7 +221,7 @@ Proof. vm_compute. reflexivity. Qed.
    Text layer (src/peripheral/broker/etrade.rs): Model/EtradeText.v,
    Spec/EtradeLayout.v; proofs in Proofs/EtradeTextRT.v, EtradeTextProps.v.   *)
 From ACB Require Import Model.QText Model.EtradeText Spec.EtradeLayout Proofs.EtradeTextRT Proofs.EtradeTextProps
-  Proofs.EtradeTextESPP Proofs.EtradeTextESO Proofs.EtradeTextTotal.
+  Proofs.EtradeTextESPP Proofs.EtradeTextESO Proofs.EtradeTextTotal Proofs.EtradeTextPre.
 
 (* The statement's data is returned exactly: for EVERY well-formed release
    confirmation (any symbol of upper-case letters and dots, any valid date, any
@@ -276,21 +276,18 @@ Check C19_eso_text_roundtrip : forall st r,
   wf_eso r = true -> parse_eso (render_eso st r) = Ok (eso_records r).
 Print Assumptions C19_eso_text_roundtrip.
 
-(* Pre-2023 trade confirmations (any number >= 1 of rows): the full statement, and what is proved of it
-   (an instance by computation: the unit-test document of etrade.rs rebuilt, three rows incl. a purchase, a
-   dotted symbol and a fee-only row, both styles).  The check evaluates the same statement on every generated
-   document. *)
-Definition C19_text_roundtrips_full : Prop := pre_roundtrip_full.
-Theorem C19_text_roundtrips_partial :
-  forallb (fun st => wf_pre ex_pre
-       && res_eqb (list_eqb ttrade_eqb) (parse_tc_pre (render_tc_pre st ex_pre))
-            (pre_records (pr_acct ex_pre) 1 (pr_rows ex_pre))) [true; false] = true.
-Proof. exact pre_roundtrip_instances. Qed.
-Check C19_text_roundtrips_partial :
-  forallb (fun st => wf_pre ex_pre
-       && res_eqb (list_eqb ttrade_eqb) (parse_tc_pre (render_tc_pre st ex_pre))
-            (pre_records (pr_acct ex_pre) 1 (pr_rows ex_pre))) [true; false] = true.
-Print Assumptions C19_text_roundtrips_partial.
+(* Pre-2023 trade confirmations: any account, ANY number n >= 1 of trade rows (valid dates MM/DD/YY, any
+   symbol, an action word of upper-case letters that TxAction::try_from accepts, whole quantity, price
+   digits.digits, a COMMISSION line and/or a FEE line -- at least one, as in the real documents), both
+   styles: n rows in, n trades out, numbered 1..n, in order. *)
+Theorem C19_tc_pre_text_roundtrip : forall st r, wf_pre r = true ->
+  parse_tc_pre (render_tc_pre st r) = Ok (pre_records (pr_acct r) 1 (pr_rows r)).
+Proof. exact pre_text_roundtrip. Qed.
+Check C19_tc_pre_text_roundtrip : forall st r, wf_pre r = true ->
+  parse_tc_pre (render_tc_pre st r) = Ok (pre_records (pr_acct r) 1 (pr_rows r)).
+Print Assumptions C19_tc_pre_text_roundtrip.
+Example C19_tc_pre_text_roundtrip_nonvacuous : wf_pre ex_pre = true /\ length (pr_rows ex_pre) = 3%nat.
+Proof. split; vm_compute; reflexivity. Qed.
 
 (* Totality of the text layer is REFUTED: parse_eso_entries adds the per-grant
    fees with rust_decimal's `+`, which panics on overflow. *)
